@@ -102,6 +102,35 @@ theorem weekday_bad_mode (n mode : Int) (hm : mode < 1 ∨ (3 < mode ∧ mode < 
 
 /-! ### two's-complement base conversion, masks generated from the source -/
 
+/-! ### TIME and its inverses (exact rationals; the floating-point instance is enumerated on the implementation) -/
+
+/-- **HOUR, MINUTE and SECOND invert TIME for every second of the day**: the hours and minutes are found
+exactly, the seconds before rounding are `s + 10⁻⁶`, `1.1·10⁻⁶` is taken off and the nearest integer is
+`s` — at distance `10⁻⁷`, never a tie, so the rounding mode does not matter -/
+theorem time_roundtrip_exact (h m s : Int) (h0 : 0 ≤ h) (h1 : h < 24) (m0 : 0 ≤ m) (m1 : m < 60)
+    (s0 : 0 ≤ s) (s1 : s < 60) :
+    hmsOfTime h m s = (h, m, s) ∧ (n2time (timeSecs h m s)).2.2 = s * timeDen + 86400 := by
+  have hT : timeSecs h m s = 3600 * h + 60 * m + s := by unfold timeSecs; omega
+  simp only [hmsOfTime, n2time, roundSecs, timeDen, hT, Prod.mk.injEq]
+  omega
+
+/-- `TIME` wraps around the day and carries overflowing components: whole seconds modulo 86 400 -/
+theorem time_wraps (h m s : Int) : 0 ≤ timeSecs h m s ∧ timeSecs h m s < 86400 ∧
+    timeSecs (h + 24) m s = timeSecs h m s ∧ timeSecs h (m + 60) s = timeSecs (h + 1) m s ∧
+    timeSecs h m (s + 60) = timeSecs h (m + 1) s := by
+  unfold timeSecs; omega
+
+/-- overflowing components: `HOUR/MINUTE/SECOND(TIME(h, m, s))` are those of the normalised time of day -/
+theorem time_roundtrip_overflow (h m s : Int) :
+    hmsOfTime h m s = (timeSecs h m s / 3600, timeSecs h m s % 3600 / 60, timeSecs h m s % 60) := by
+  have hb : 0 ≤ timeSecs h m s ∧ timeSecs h m s < 86400 := by unfold timeSecs; omega
+  unfold hmsOfTime
+  generalize timeSecs h m s = T at hb ⊢
+  simp only [n2time, roundSecs, timeDen, Prod.mk.injEq]
+  omega
+
+example : hmsOfTime 23 59 59 = (23, 59, 59) ∧ hmsOfTime 25 61 75 = (2, 2, 15) := by decide
+
 /-- the generated masks are the 10-digit two's-complement sign bits -/
 theorem masks : Generated.xmask = [(2, 2 ^ 9), (8, 2 ^ 29), (16, 2 ^ 39)] := by decide
 
